@@ -109,6 +109,18 @@ contracts = {
         f"(= (= {st.env['$clause'].s} TT) (exists ((j Int)) (and (>= j 0) (< j (seq.len {entry.env['execution_statuses'].s})) (= (seq.nth {entry.env['execution_statuses'].s} j) (exec_display true |row_end| |row_cached| |row_vtype|)))))")}),
 }
 
+# the execution query is joined with the execution's ROOT job (Execution.job_id), so execution filters judge the root job's row only
+contracts["CallGraphQuery._join_jobs"] = dict(where=f"{Q}:CallGraphQuery._join_jobs", params={"self": REF},
+    at_call={"join": ["arg1 == (Job.id == Execution.job_id)"]}, must_call=["join", "clone"])
+
+
+def bounded_rows(tier, seed):
+    from pvc import bounded
+    return [bounded.run("C33", "row-shapes-and-two-job-executions", rule="every shape of the finite job row domain (end_time x cached x value type) and 16 two-job executions (root status x child status) "
+                        "built with the real ORM models on in-memory SQLite: each real status filter returns a job / execution iff the real displayed status equals it")]
+
+
+EXTRA_CHECKS = [bounded_rows]
 MODULE = Module(
     fields={"end_time": Opt("DT"), "cached": Opt(BOOL), "_status": Opt(STR)},
     axioms=["(forall ((d DT)) (|truthy_DT| d))"],
